@@ -13,6 +13,7 @@ Fixpoint bz_aux (n : nat) (x : N) (acc : bytes) : bytes :=
   | S n' => bz_aux n' (N.shiftr x 8) (N.land x 255 :: acc)
   end.
 Definition bz (n : nat) (x : N) : bytes := bz_aux n x [].
+Definition bzs (l : list (nat * N)) : bytes := flat_map (fun c => bz (fst c) (snd c)) l.
 
 (* ---- an executable env: primitive floats + harness tables ---- *)
 Record tables := mktables {
@@ -128,7 +129,8 @@ Fixpoint obs_all (ocs : list outcome) (obs : list obs) : bool :=
   end.
 
 (* ---- what the harness expects of [verify] ---- *)
-Inductive expect := MustVerify | MustReject | Either.
+Inductive expect := MustVerify | MustReject | Either
+  | NoVerdict.   (* hand-assembled bytecode: only model = VM is compared *)
 
 (* (opcode, representation class) of the known findings of known/C04.json:
    Length feeding Settime; a metric assigned values of two numeric types
@@ -153,10 +155,11 @@ Definition known_reject (d : diag) : bool :=
   end.
 
 Definition verify_as (e : expect) (o : object) : bool :=
+  match e with NoVerdict => true | _ =>
   match verify_diag o with
   | None => match e with MustReject => false | _ => true end
   | Some d => match e with MustVerify => false | _ => known_reject d end
-  end.
+  end end.
 
 Inductive case :=
 | CRun (id : N) (o : object) (tb : tables) (now : Z) (e : expect)
